@@ -9,7 +9,8 @@
      mode class;
    - the attributes a freshly constructed component / mode already has
      (class-level values and what __init__ assigns), i.e. hasattr;
-   - dir(robot) after createObjects(), each name with its kind and value.
+   - dir(robot) after createObjects(), each name with its kind (descriptor on
+     the class / bound method / other callable / not callable) and value.
 
    Names are Python identifiers (strings: the property is about the text of
    names, leading underscore and the "<component>_<name>" fallback).  Python
@@ -122,9 +123,20 @@ Fixpoint find_injections (requests : list (name * cls)) (inj : imap) (cname : na
 (* One entry of dir(robot) after createObjects(): class-level and
    createObjects-level attributes alike. *)
 Inductive akind :=
-| KPlain        (* any value that is none of the below *)
-| KMethod       (* inspect.ismethod(value) *)
+| KPlain        (* a value that is not callable (and none of the below) *)
+| KCallable     (* callable(value) but NOT inspect.ismethod(value): an instance of a
+                   class with __call__, a functools.partial, a class object, a function
+                   stored on the instance or as a staticmethod, a builtin function *)
+| KMethod       (* inspect.ismethod(value): a bound method (of the robot or of any
+                   other object); always callable *)
 | KDescriptor.  (* getattr(type(robot), n) is a property or a tunable *)
+
+(* callable(getattr(robot, n)), for the kinds that are read at all *)
+Definition kind_callable (k : akind) : bool :=
+  match k with KCallable | KMethod => true | _ => false end.
+(* inspect.ismethod(getattr(robot, n)) *)
+Definition kind_ismethod (k : akind) : bool :=
+  match k with KMethod => true | _ => false end.
 Record rattr := { ra_name : name; ra_kind : akind; ra_value : value }.
 
 (* What a fresh instance of a component class already has.  A value is a
@@ -172,10 +184,10 @@ Fixpoint collect_injectables (dir : list rattr) : imap :=
     if is_private (ra_name a) || mem (ra_name a) exclude_from_injection
        || match ra_kind a with KDescriptor => true | _ => false end
     then collect_injectables rest
-    else match ra_kind a with
-         | KMethod => collect_injectables rest          (* don't inject methods *)
-         | _ => (ra_name a, ra_value a) :: collect_injectables rest
-         end
+    else if kind_ismethod (ra_kind a)                  (* if inspect.ismethod(o): continue *)
+         then collect_injectables rest                  (* "don't inject methods" -- bound methods
+                                                           only; other callables ARE injected *)
+         else (ra_name a, ra_value a) :: collect_injectables rest
   end.
 
 (* hasattr(self, m) for a robot annotation m.  (Components created earlier in
